@@ -3,6 +3,7 @@ from .. import env
 from .c01 import sym_bloom, bits_of, hv
 
 PROPERTY = "C12"
+CROSS_CHECK = True      # thorough: dumped assertion queries are re-decided by z3 4.8.12 and cvc5 1.0
 LEVEL = "model_checking"
 STUBS = ["array -> SymArray", "BloomFilter.estimate_elements -> 0 in symbolic mode (its formula is C14's subject; it needs math.log of a symbolic popcount)",
          "hash_function -> fixed concrete strategy (the similarity check probes the key 'test')"]
